@@ -395,6 +395,50 @@ func c12Run(w *W) {
 			c.do(tran+" d.SetOption", func() (interface{}, error) { return nil, d.SetOption(mangos.OptionMaxReconnectTime, time.Second) })
 			c.do(tran+" d.Address", func() (interface{}, error) { return d.Address(), nil })
 			w.Probe("err-dial-on-started-dialer")
+			if tran == "tcp" || tran == "ipc" {
+				// ... and while a synchronous Dial is still in its handshake (the
+				// peer is slow with its header): a second Dial on that dialer is
+				// refused, and only one connection is ever made
+				slow := w.Addr(tran)
+				if hl, err := curNet.Listen(NetKey(slow)); err == nil {
+					release := w.NewEvent()
+					accepted := 0
+					w.Go("slow peer", func() {
+						for {
+							cn, err := hl.AcceptSim()
+							if err != nil {
+								return
+							}
+							accepted++
+							w.Go("slow peer conn", func() {
+								release.Wait(time.Hour)
+								cn.Write(wcHeader(protoOf(peerKind[kind])))
+								wcReadHeader(cn)
+							})
+						}
+					})
+					ds, err := s.NewDialer(slow, map[string]interface{}{mangos.OptionDialAsynch: false})
+					if err == nil {
+						first := w.Do(tran+" ds.Dial(synchronous, slow peer)", func() (interface{}, error) { return nil, ds.Dial() })
+						w.Settle()
+						if !first.Returned() {
+							second := c.do(tran+" ds.Dial(second, first in flight)", func() (interface{}, error) { return nil, ds.Dial() })
+							if second.Returned() && second.Err == nil {
+								w.Failf("C12/second-dial-accepted", "%s: a synchronous Dial was waiting for the peer's header; a second Dial on the same dialer returned nil", tran)
+							}
+							w.Settle()
+							if accepted > 1 {
+								w.Failf("C12/second-dial-accepted", "%s: one dialer, a synchronous Dial in flight and a second Dial call: the peer has accepted %d connections", tran, accepted)
+							}
+							w.Probe("second-dial-while-first-in-handshake")
+						}
+						release.Set()
+						first.Wait(2 * time.Second)
+						c.do(tran+" ds.Close", func() (interface{}, error) { return nil, ds.Close() })
+					}
+					hl.Close()
+				}
+			}
 			// construction refused: an option of the wrong type, an unknown
 			// option, a value out of range - nothing of the endpoint may stay
 			// behind (the address is still free, the socket still works)
